@@ -51,6 +51,8 @@ type Spec struct {
 	mute         bool
 	reopened     bool // the handle was closed / abandoned and reopened at least once
 	prevOp        string
+	rmIndexed     bool // the file of an indexed object was removed from outside and nothing since could have dropped its entry or rewritten the file
+	rmU           int
 	repairPhase   int // 1: the last non-observing call was a Repair without error; 2: and Control then succeeded (any history)
 	rejectedSeen  bool // a write call of this history was rejected for a logical reason (unique, invalid, json ...)
 	lastAll       map[int]string // what the last All returned, by uuid number (nil: not fresh any more)
@@ -864,6 +866,23 @@ func (s *Spec) stateOracles(e *Exec, t, r []string) {
 		s.damaged = true
 	}
 	switch t[0] {
+	case "rmfile":
+		if r[0] == "ok" && s.loaded && !s.outside && !s.off {
+			// (nothing was done to the directory from outside before: the object is indexed)
+			s.rmIndexed = true
+			s.rmU, _ = strconv.Atoi(t[1])
+		}
+	case "del", "delall", "sdel", "repair", "reopen", "vopen", "close", "drop", "create", "crashat", "failat", "rmentry", "rmschema",
+		"flushall", "flushallc", "flush1", "flush1c", "tick", "addfile":
+		// (the entry may be dropped, or the file written again by a flush of a pending update)
+		s.rmIndexed = false
+	case "ins", "many", "bulk":
+		// an update of that very object writes its file again (synchronous) or may be flushed at once (threshold)
+		if strings.Contains(strings.Join(t[1:], " "), fmt.Sprintf("R%d|", s.rmU)) || e.cfg.Async {
+			s.rmIndexed = false
+		}
+	}
+	switch t[0] {
 	case "repair":
 		s.repairPhase = 0
 		if r[0] == "ok" {
@@ -1015,6 +1034,11 @@ func (s *Spec) stateOracles(e *Exec, t, r []string) {
 		}
 		s.lastSweep = ""
 	case "control", "schema":
+		// the file of an indexed object was removed from outside: Control must say so, in every
+		// configuration, whatever else is pending (C11, the "if" of the iff)
+		if t[0] == "control" && s.rmIndexed && r[0] == "ok" && !s.faulted && s.crashCtx == "" && !s.mute && s.variant <= 1 {
+			s.fail(e, "C11", "Control succeeds although the file of an indexed object was removed from the directory")
+		}
 		// Repair returned without error (no storage fault, no crash, nothing pending): "afterwards
 		// Control succeeds" (C11)
 		if t[0] == "control" && s.repairedOK == 1 {
